@@ -269,7 +269,7 @@ class Ctx:
                 res[i + j * shards] = al[j] if j < len(al) else f'<no answer: rc={rc} {er.strip()[-200:]}>'
         return res
 
-    def engine_session(self, script, timeout=120):
+    def engine_session(self, script, timeout=120, extra=0):
         """run the real UCI main loop on a scripted input: script = [(delay_in_polls, line), ...]; returns stdout text"""
         import tempfile
         os.makedirs(os.path.join(BUILD, 'tmp'), exist_ok=True)
@@ -278,7 +278,7 @@ class Ctx:
             for d, l in script: f.write(f'{d} {l}\n')
         try:
             p = subprocess.run([self.engine, '--verif', 'session', path], capture_output=True, text=True, timeout=timeout,
-                               env=dict(os.environ, JENCE_VERIF_TMP=os.path.join(BUILD, 'tmp')), stdin=subprocess.DEVNULL)
+                               env=dict(os.environ, JENCE_VERIF_TMP=os.path.join(BUILD, 'tmp'), JENCE_VERIF_EXTRA=str(extra)), stdin=subprocess.DEVNULL)
             return p.stdout + (f'\n@EXIT {p.returncode}' if p.returncode != 0 else '')
         except subprocess.TimeoutExpired as e:
             return (e.stdout.decode() if isinstance(e.stdout, bytes) else (e.stdout or '')) + '\n@TIMEOUT'
